@@ -203,3 +203,41 @@ Proof.
       apply (cancelling_excludes_done _ Hp Em). apply last_st_in. rewrite <- Hc, Ed. reflexivity. }
     rewrite C7, Ev. cbn [is_some]. rewrite (lookup_vals_of g j jb Hg), Ev, Z.eqb_refl. reflexivity.
 Qed.
+
+(* a decidable form of the timing assumption (used for the non-vacuity examples) *)
+Fixpoint split_at_sent (tr : list ev) : option (list ev * list ev) :=
+  match tr with
+  | [] => None
+  | e :: r => if not_sent e then match split_at_sent r with Some (a, b) => Some (e :: a, b) | None => None end else Some ([], r)
+  end.
+
+Definition calm (jb : job) : bool :=
+  negb (match jph jb with TWaiting => true | _ => false end && jstarted jb && negb (is_some (jret jb))).
+
+Definition timingb (c : cfg) (g0 : gst) (tr : list ev) : bool :=
+  match split_at_sent tr with
+  | None => true
+  | Some (t1, r) =>
+    match split_at_sent r with
+    | None => true
+    | Some (t2, t3) =>
+      match grun c g0 (t1 ++ ESentinel :: t2) with
+      | None => true
+      | Some g2 => forallb calm (jobs g2) && forallb (fun e => negb (is_submit e)) t3
+      end
+    end
+  end.
+
+Lemma split_at_sent_spec : forall t1 r, nosent t1 = true -> split_at_sent (t1 ++ ESentinel :: r) = Some (t1, r).
+Proof.
+  induction t1 as [|e t IH]; intros r N; cbn; [reflexivity|]. cbn in N. apply andb_true_iff in N as [N1 N2].
+  rewrite N1, (IH r N2). reflexivity.
+Qed.
+
+Lemma timingb_sound c g0 tr : timingb c g0 tr = true -> timing c g0 tr.
+Proof.
+  unfold timingb, timing. intros H t1 t2 t3 g2 -> N1 N2 R.
+  rewrite (split_at_sent_spec t1 _ N1), (split_at_sent_spec t2 _ N2), R in H. apply andb_true_iff in H as [H1 H2]. split.
+  - intros j jb Hj Ph St Rn. pose proof (forallb_nth _ _ _ _ H1 Hj) as Cm. unfold calm in Cm. rewrite Ph, St, Rn in Cm. discriminate Cm.
+  - intros X. rewrite forallb_forall in H2. specialize (H2 _ X). discriminate H2.
+Qed.
